@@ -48,8 +48,9 @@ Proof.
 Qed.
 Print Assumptions C04_UDQ_mul_hom.
 
-(* UnitDualQuaternion(SE3 T): on each of the six r2q paths the traced constructor is (real, 1/2 t real) with real = traced r2q of the rotation block *)
+(* UnitDualQuaternion(SE3 T): on the trace > 0 path and on each of the six trace <= 0 paths of r2q the traced constructor is (real, 1/2 t real) with real = traced r2q of the rotation block *)
 Theorem C04_UDQ_of_SE3_structure : forall X : M44 R,
+  (tr_UDQ_vec_pos Rops X = udq_rt (tr_r2q_pos Rops (t2r3 X)) (transl3 X)) /\
   (tr_UDQ_vec_b0p Rops X = udq_rt (tr_r2q_b0p Rops (t2r3 X)) (transl3 X)) /\
   (tr_UDQ_vec_b0m Rops X = udq_rt (tr_r2q_b0m Rops (t2r3 X)) (transl3 X)) /\
   (tr_UDQ_vec_b1p Rops X = udq_rt (tr_r2q_b1p Rops (t2r3 X)) (transl3 X)) /\
@@ -59,7 +60,7 @@ Theorem C04_UDQ_of_SE3_structure : forall X : M44 R,
 Proof.
   intros X. unfold udq_rt, dq_make.
   repeat split; gen_unfold;
-  tuple_eq ltac:(repeat match goal with |- context [1 / sqrt ?x] => generalize (1 / sqrt x); intro end; field).
+  tuple_eq ltac:(first [reflexivity | repeat match goal with |- context [1 / ?x] => lazymatch x with IZR _ => fail | _ => generalize (1 / x); intro end end; field]).
 Qed.
 Print Assumptions C04_UDQ_of_SE3_structure.
 
